@@ -733,6 +733,12 @@ func (w *PointsWriter) updateShardGroupAndShardKey(
 	if len(*asis) == 0 {
 		sameSg = false
 	}
+	// The alive shard list belongs to the shard group that wh.createShardGroup has just remembered. It is refreshed here,
+	// before any row can be turned away below: a rejected row (missing shard-key tag, key too large) must not leave the
+	// remembered group paired with the list of the previous group.
+	if !sameSg {
+		*asis = w.MetaClient.GetAliveShards(database, sg, false)
+	}
 
 	// The shard key depends on the measurement and the shard group of this very row. It is looked up for every row:
 	// a row that was dropped after its measurement had been resolved never got here, so "same measurement as the
@@ -774,10 +780,6 @@ func (w *PointsWriter) updateShardGroupAndShardKey(
 			w.logger.Error("write failed", zap.Error(partialErr))
 			return
 		}
-	}
-
-	if !sameSg {
-		*asis = w.MetaClient.GetAliveShards(database, sg, false)
 	}
 
 	if (*si).Type == influxql.RANGE {
